@@ -6,6 +6,7 @@ package main
 
 import (
 	"fmt"
+	"go/constant"
 	"go/token"
 	"go/types"
 	"strings"
@@ -469,6 +470,87 @@ func init() {
 				}
 				if n == 0 {
 					r.undecided(key, name, c.pos(fn.Pos()), "no non-sentinel end offset store found")
+				}
+				// the start offset is captured before the first byte of the section
+				// can reach the writer: before Write(), and — when the coder writes
+				// finished chunks progressively — before every Add()/Close() as well
+				var startParam *ssa.Parameter
+				for _, p := range fn.Params {
+					if strings.HasSuffix(p.Name(), "Start") && p.Type().String() == "[]uint64" {
+						startParam = p
+					}
+				}
+				if startParam == nil {
+					continue
+				}
+				progressive := true
+				for _, mk := range callsOf(fn, "newChunkedContentCoder") {
+					if a := argNamed(&mk.Call, "progressiveWrite"); a != nil {
+						if k, ok := a.(*ssa.Const); ok && k.Value != nil && k.Value.Kind() == constant.Bool && !constant.BoolVal(k.Value) {
+							progressive = false
+						}
+					}
+				}
+				var emitters []*ssa.Call
+				emitters = append(emitters, writes...)
+				if progressive {
+					emitters = append(emitters, closes...)
+					emitters = append(emitters, callsOf(fn, "(*chunkedContentCoder).Add")...)
+					// Add may be called from a visitor literal of this function
+					for _, lit := range fn.AnonFuncs {
+						if len(callsOf(lit, "(*chunkedContentCoder).Add")) > 0 {
+							for _, b := range fn.Blocks {
+								for _, ins := range b.Instrs {
+									if call, ok := ins.(*ssa.Call); ok {
+										for _, a := range call.Call.Args {
+											for {
+												if ct, ok := a.(*ssa.ChangeType); ok {
+													a = ct.X
+													continue
+												}
+												break
+											}
+											if mc, ok := a.(*ssa.MakeClosure); ok && mc.Fn == ssa.Value(lit) {
+												emitters = append(emitters, call)
+											}
+										}
+									}
+								}
+							}
+						}
+					}
+				}
+				skey := name + "/start-offset"
+				ns := 0
+				for _, b := range fn.Blocks {
+					for _, ins := range b.Instrs {
+						st, ok := ins.(*ssa.Store)
+						if !ok {
+							continue
+						}
+						ia, ok := st.Addr.(*ssa.IndexAddr)
+						if !ok || ia.X != ssa.Value(startParam) {
+							continue
+						}
+						if _, isConst := st.Val.(*ssa.Const); isConst {
+							continue
+						}
+						ns++
+						late := ""
+						for _, e := range emitters {
+							if canExecuteAfter(e, st) && !canExecuteAfter(st, e) || (e.Block() == st.Block() && instrIndex(e) < instrIndex(st)) {
+								late = c.pos(e.Pos())
+							}
+						}
+						if late == "" {
+							r.ok(skey, name, c.pos(st.Pos()), "the section's start offset is captured before any of its bytes can be written")
+						} else {
+							r.bad(skey, name, c.pos(st.Pos()), "the doc-value section's start offset is captured after the call at "+late+", which can already have written bytes of the section: the recorded start points into the middle of the section")
+						}
+					}
+				}
+				if ns == 0 && len(writes) > 0 {
+					r.undecided(skey, name, c.pos(fn.Pos()), "no start offset store found next to the section writer")
 				}
 			}
 		},
